@@ -161,7 +161,9 @@ impl WriteHalf for ScriptedWrite {
             let mut s = self.0.borrow_mut();
             s.writes += 1;
             if s.fail_writes.contains(&(s.writes - 1)) {
-                return Err(zlink_core::Error::SocketWrite);
+                // which error a dead transport reports is its own business: alternately the crate's SocketWrite and an OS error
+                // of an unusual kind (ENOMEM) - neither may matter to anyone but this connection
+                return Err(if s.writes % 2 == 0 { zlink_core::Error::SocketWrite } else { zlink_core::Error::Io(std::io::Error::from(std::io::ErrorKind::OutOfMemory)) });
             }
             s.slow_write_every > 0 && s.writes % s.slow_write_every == 0
         };
